@@ -42,6 +42,25 @@ def _expr_mentions(e, pred, depth=14):
     return False
 
 
+def _is_failed_lookup_fallback(prog, f):
+    """f is a closure handed to Result::unwrap_or_else / or_else whose receiver is the result of a mapping-offset lookup"""
+    if f.raw.get("kind") != "closure":
+        return False
+    parent = prog.fns.get(re.sub(r"::\{closure#\d+\}$", "", f.path))
+    if parent is None:
+        return False
+    for c in parent.calls():
+        if not re.search(r"Result::<T, E>::(unwrap_or_else|or_else)$", c.name) or len(c.args) < 2:
+            continue
+        clo = expr_of(parent, c.args[1])
+        if not (clo[0] == "agg" and clo[1] == "closure" and clo[2] == f.path):
+            continue
+        recv = expr_of(parent, c.args[0], depth=6)
+        if recv[0] == "call" and recv[1] in (REL + "::into_global", GLO + "::relocate"):
+            return True
+    return False
+
+
 def rule_kind(ck):
     prog = ck.prog
     ck.rule("kind.discipline", "no RelocatedAddress is constructed from the number inside a GlobalAddress (and no GlobalAddress from the number inside a RelocatedAddress) without a mapping-offset function in between")
@@ -74,6 +93,11 @@ def rule_kind(ck):
         other = GLO if is_ctor(c, REL) else REL
         e = expr_of(f, c.args[0])
         bad = _expr_mentions(e, payload_of(other))
+        if bad and _is_failed_lookup_fallback(prog, f):
+            # the one accepted relabel: the fallback closure of a *failed* mapping-offset lookup (a pc that belongs to no
+            # known object — vdso, JIT — has no offset to apply; the address is then its own object-relative address)
+            ck.ob("kind.discipline", f"{k}/relabel-only-as-fallback-of-a-failed-offset-lookup", True, "closure passed to unwrap_or_else of RelocatedAddress::into_global", f.loc(c.bb))
+            continue
         ck.ob("kind.discipline", f"{k}/no-raw-kind-change", not bad, f"built from {expr_str(e, 6)}: an address of the other kind is re-labelled without applying the mapping offset", f.loc(c.bb), what=f"{short(owner_fn(f.path))} converts a {'global' if other == GLO else 'relocated'} address to the other kind by value")
     # Into::into resolved calls are covered since res names the From impl; match arms on Address::{Global,Relocated} that relabel
     ck.rule("kind.arith", "RelocatedAddress::remove_vas_region_offset subtracts the offset, GlobalAddress::relocate adds it; into_global / relocate_to_segment / relocate_to_segment_by_pc take the offset from Debugee::mapping_offset_for_{pc,file} of the right operand")
